@@ -31,6 +31,7 @@ STRATA = [
     ("knap-large", 60, 1200),
     ("knap-approx", 400, 8000),
     ("knap-tiny-values", 300, 5000),
+    ("knap-huge-values", 300, 5000),
     ("bin-int", 500, 10000),
     ("bin-dec", 400, 8000),
     ("bin-straddle", 400, 8000),
@@ -230,6 +231,15 @@ def gen(stratum, rng, tier):
         v = [rng.randint(0, 50) for _ in range(n)]
         return _knap_case(v, 0, w, p, cap)
 
+    if stratum == "knap-huge-values":
+        # integer values beyond 2**53 (a float cannot hold them): the objective is the *sum of the chosen values*
+        n = rng.randint(1, 7)
+        base = rng.choice([2 ** 53, 2 ** 52, 10 ** 17, 2 ** 60])
+        v = [base * rng.randint(1, 3) + rng.randint(0, 9) for _ in range(n)]
+        w = [rng.randint(0, 6) for _ in range(n)]
+        cap = rng.randint(0, max(1, sum(w)))
+        return _knap_case(v, 0, w, 0, cap)
+
     al = [rng.choice(ALIASES), rng.choice(ALIASES)]
     if stratum == "bin-int":
         n = rng.randint(1, 11)
@@ -392,7 +402,10 @@ def _judge_knap(case, minimize, res, obs):
     exact_v = Fraction(vsum, 10 ** vp)
     obs.event("knap.objective.checked")
     try:
-        ok = abs(Fraction(res.objective) - exact_v) <= Fraction(1, 10 ** 9) * (1 + abs(exact_v))
+        if vp == 0 and not case.get("fl"):
+            ok = res.objective == vsum  # integer values: the sum is an integer, compared exactly (int == float is exact)
+        else:
+            ok = abs(Fraction(res.objective) - exact_v) <= Fraction(1, 10 ** 9) * (1 + abs(exact_v))
     except (TypeError, ValueError, OverflowError):
         ok = False
     if not ok:
